@@ -48,24 +48,42 @@ Print Assumptions C07_restore_old_round_router_refuted.
 
 (* second sentence, for protocols WITHOUT DynamicFilterTimeout (where the refutations above do not
    apply): from every state sigma reachable from a fresh round (any parameters, any event history
-   es0) whose Pending tails carry no network handle, and for EVERY continuation es, the run from
-   restore (persist sigma) and the run from sigma emit the same action lists and keep the same player
-   and the same state on everything persistence keeps ([rt_rel]: for all rounds >= the player's round
-   the same proposal store, freshest bundle, vote trackers, next-threshold caches, proposal trackers up
-   to the late-credential fields), at every step at which both runs are defined.
+   es0) whose Pending tails carry no network handle, and for EVERY continuation es:
+
+   STRICT theorem -- if no VERIFIED proposal-vote inside the late-credential window of a round older
+   than the player's round is delivered after the restart ([trace_wf true]; such votes only feed the
+   credential-arrival statistics), the run from restore (persist sigma) and the run from sigma are in
+   lockstep: same number of steps, same way of ending (finished / panic / out of fuel), and at every
+   step the same action list, the same player and the same state on everything persistence keeps
+   ([rt_rel]: for all rounds >= the player's round the same proposal store, freshest bundle, vote
+   trackers, next-threshold caches, proposal trackers up to the late-credential fields).
+
+   PARTIAL theorem -- without that restriction ([trace_wf false]) the same equalities hold at every
+   step at which both runs are defined; exactly what is missing: panic equivalence when such a late
+   old-round vote is delivered (the restored node re-created that round's router empty; missing is the
+   proof that the proposalTracker contract post-condition cannot fire on it / on the original's).
+   The harness forks compare panics on the real code (no difference observed).
+
    Environment premises ([trace_ok], [trace_wf]): payloadVerified events carry payloads of the player's
    round; verified bundles carry votes of the bundle's round; round interruptions go forward; rounds
-   stay below 2^64 - 14 (no uint64 wrap).
-   PARTIAL -- exactly what is missing: panic equivalence.  Nothing is claimed from the first step on
-   at which either run panics; the two runs can only differ in panicking at operations on round
-   routers OLDER than the player's round (updateCredentialArrivalHistory's readLowestVote, late
-   old-round proposal-votes), i.e. missing is the proof that the proposalTracker contract
-   post-condition cannot fire there (tracker/contract consistency invariant).  The harness forks
-   compare panics on the real code (none observed). *)
+   stay below 2^64 - 14 (no uint64 wrap). *)
+Theorem C07_restore_persist_id_on_observables_strict : forall pm r0 es0 sigma es,
+  pm_dynfilter pm = false ->
+  trace_ok pm (init pm r0) es0 -> state_after pm (init pm r0) es0 = Some sigma ->
+  pending_nil (s_pl sigma) -> trace_wf true pm sigma es ->
+  let ro := run pm sigma es in
+  let rr := run pm (restore (persist sigma)) es in
+  List.length (fst ro) = List.length (fst rr) /\ same_outcome (snd ro) (snd rr) /\
+  forall i a b, nth_error (fst ro) i = Some a -> nth_error (fst rr) i = Some b ->
+    fst a = fst b /\ s_pl (snd a) = s_pl (snd b) /\
+    rt_rel (p_rnd (s_pl (snd a))) (s_rt (snd a)) (s_rt (snd b)).
+Proof. exact restore_persist_id_on_observables_strict_proof. Qed.
+Print Assumptions C07_restore_persist_id_on_observables_strict.
+
 Theorem C07_restore_persist_id_on_observables_partial : forall pm r0 es0 sigma es,
   pm_dynfilter pm = false ->
   trace_ok pm (init pm r0) es0 -> state_after pm (init pm r0) es0 = Some sigma ->
-  pending_nil (s_pl sigma) -> trace_wf pm sigma es ->
+  pending_nil (s_pl sigma) -> trace_wf false pm sigma es ->
   forall i a b,
     nth_error (fst (run pm sigma es)) i = Some a ->
     nth_error (fst (run pm (restore (persist sigma)) es)) i = Some b ->
@@ -75,18 +93,18 @@ Proof. exact restore_persist_id_on_observables_partial_proof. Qed.
 Print Assumptions C07_restore_persist_id_on_observables_partial.
 
 (* non-vacuity: a reachable state with a non-trivial router (proposal-vote seen, frozen seeker, soft
-   vote cast = the persistent action), a continuation that commits the block: all premises hold and
-   both runs are defined for all 6 steps *)
+   vote cast = the persistent action), a continuation that commits the block: all premises (of the
+   strict theorem, hence of the partial one) hold and both runs are defined for all 6 steps *)
 Definition nv_pm := mkParams 2 2 2 2 2 2 3000 4000 4000 17000 2000 300000 false 8.
 Definition nv_v := mkV 1 5 0 1.
 Definition nv_m := mkMeta false false false false 0.
 Definition nv_vote (s st : N) := EvMsg (mkME true (InVote (mkVote s 5 0 st nv_v 1 (s * 7))) nv_m None).
 Definition nv_es0 := [nv_vote 1 0; EvTimeout false 0 false].
-Definition nv_es := [EvMsg (mkME true (InPayload nv_v) nv_m None); nv_vote 1 1; nv_vote 2 1; nv_vote 1 2; nv_vote 2 2; nv_vote 3 0].
+Definition nv_es := [EvMsg (mkME true (InPayload nv_v) nv_m None); nv_vote 1 1; nv_vote 2 1; nv_vote 1 2; nv_vote 2 2; EvTimeout false 7 false].
 Example C07_nonvacuous :
   exists sigma, state_after nv_pm (init nv_pm 5) nv_es0 = Some sigma /\
     pm_dynfilter nv_pm = false /\ trace_ok nv_pm (init nv_pm 5) nv_es0 /\ pending_nil (s_pl sigma) /\
-    trace_wf nv_pm sigma nv_es /\
+    trace_wf true nv_pm sigma nv_es /\ trace_wf false nv_pm sigma nv_es /\
     List.length (fst (run nv_pm sigma nv_es)) = 6%nat /\
     List.length (fst (run nv_pm (restore (persist sigma)) nv_es)) = 6%nat /\
     sigma <> restore (persist sigma).
@@ -95,6 +113,7 @@ Proof.
   exists sigma. split; [reflexivity|]. vm_compute in E. inversion E; subst sigma; clear E.
   split; [reflexivity|]. split; [vm_compute; repeat split; auto|].
   split; [intros k v m H; vm_compute in H; contradiction|].
+  split; [vm_compute; repeat split; auto; try discriminate|].
   split; [vm_compute; repeat split; auto; try discriminate|].
   split; [vm_compute; reflexivity|]. split; [vm_compute; reflexivity|].
   vm_compute. intro C. discriminate.
